@@ -61,8 +61,8 @@ def run(ctx):
 
 
 # ---------------------------------------------------------------------------- R1.1
-def r11(ctx):
-    ctx.rule("R1.1", "who-may-call: ChannelSigner::release_commitment_secret / read of "
+def r11(ctx, rid="R1.1"):
+    ctx.rule(rid, "who-may-call: ChannelSigner::release_commitment_secret / read of "
                      "InMemorySigner.commitment_seed only in the named functions")
     allowed = {
         f"{CHB}::get_per_commitment_secret": "guarded getter (R1.2)",
@@ -74,7 +74,7 @@ def r11(ctx):
         "<lightning_signer::util::loopback::LoopbackChannelSigner as lightning::sign::ChannelSigner>::release_commitment_secret":
             "test utility (loopback signer)",
     }
-    R.who_may_call(ctx, "R1.1", is_ldk_release, allowed, "release of a holder commitment secret", floor=4)
+    R.who_may_call(ctx, rid, is_ldk_release, allowed, "release of a holder commitment secret", floor=4)
     seed_allowed = {
         f"{STUB}::channel_keys_with_channel_value": "re-derives the same signer with the channel value",
         "<lightning_signer::util::debug_utils::DebugInMemorySigner<'_> as std::fmt::Debug>::fmt":
@@ -86,23 +86,23 @@ def r11(ctx):
         if R.is_test_util(on):
             continue
         n += 1
-        ctx.ob("R1.1", on in seed_allowed, f"{on}/reads/InMemorySigner.commitment_seed",
+        ctx.ob(rid, on in seed_allowed, f"{on}/reads/InMemorySigner.commitment_seed",
                f"`{on}` reads InMemorySigner.commitment_seed (root of all per-commitment secrets)",
                where=f"{b.file}:{obj.line}", sample=seed_allowed.get(on))
-    ctx.floor("R1.1", "reads of commitment_seed", n, 1)
+    ctx.floor(rid, "reads of commitment_seed", n, 1)
 
 
 # ---------------------------------------------------------------------------- R1.2
-def r12(ctx):
-    ctx.rule("R1.2", "guard entailment: release call unreachable when commitment_number + 2 > "
+def r12(ctx, rid="R1.2"):
+    ctx.rule(rid, "guard entailment: release call unreachable when commitment_number + 2 > "
                      "EnforcementState.next_holder_commit_num")
     for fn in ("get_per_commitment_secret", "get_per_commitment_secret_or_none"):
         b = ctx.prog.fn(f"{CHB}::{fn}")
         fv = fnview(ctx, b)
         sinks = [(bi, ln) for bi, ln, c in R.call_blocks(fv, is_ldk_release)]
-        ctx.floor("R1.2", f"release sites in {fn}", len(sinks), 1)
+        ctx.floor(rid, f"release sites in {fn}", len(sinks), 1)
         R.scenario_refused(
-            ctx, "R1.2", b, ["commitment_number + 2 > EnforcementState.next_holder_commit_num"], sinks,
+            ctx, rid, b, ["commitment_number + 2 > EnforcementState.next_holder_commit_num"], sinks,
             key=f"{b.name}/release/bound",
             what=f"`{fn}` can reach release_commitment_secret(n) with n + 2 > next_holder_commit_num "
                  f"(secret of a commitment whose successor was not counter-signed)")
@@ -112,7 +112,7 @@ def r12(ctx):
             lin = atoms.linear(e)
             ok = (lin[1] == (1 << 48) - 1 and len(lin[0]) == 1 and
                   all(s[0] == "commitment_number" and c_ == -1 for s, c_ in lin[0].items()))
-            ctx.ob("R1.2", ok, f"{b.name}/release/index",
+            ctx.ob(rid, ok, f"{b.name}/release/index",
                    f"`{fn}` releases index `{render(e)}`, not INITIAL_COMMITMENT_NUMBER - commitment_number",
                    where=f"{b.file}:{ln}", sample=render(e))
 
